@@ -54,7 +54,7 @@ func init() {
 		RaceIsViolation: true,
 		Cases: func(tier string) int {
 			if tier == "thorough" {
-				return gridSize + 12000
+				return gridSize + 72000
 			}
 			return 1360 + 640
 		},
